@@ -165,7 +165,7 @@ fn main() {
     let args = Args::parse("followups");
     let n_hist = args.get_u64("histories", if args.thorough() { 12 } else { 2 });
     let n_ops = args.get_u64("ops", if args.thorough() { 80 } else { 40 });
-    let header = "From Coq Require Import String.\nFrom KV Require Import base.Tac queue.Queue queue.QueueSpec queue.FollowCheck.\nOpen Scope string_scope.\nOpen Scope N_scope.";
+    let header = "From Coq Require Import String.\nFrom KV Require Import base.Tac queue.FollowSpec queue.FollowCheck.\nOpen Scope string_scope.\nOpen Scope N_scope.";
     let footer = "Eval vm_compute in (failing follow_ok base_index cases).";
     let mut out = Out { w: CaseWriter::new(&args.out, header, "list fcase", footer, 200), jsonl: std::fs::File::create(args.out.join("cases.jsonl")).unwrap(),
         kinds: BTreeMap::new(), events: BTreeMap::new(), distinct: Default::default() };
